@@ -12,6 +12,10 @@ CLAIMED = {
   text="Bounded symbolic execution (symgo) of the real marbl.Reader.ReadFrame from SSA on a fully symbolic input buffer cut at every length: z3 shows, for every byte value within the bound, no Go panic, frame XOR error, error iff the declared lengths do not fit, and decoded fields equal to an independent parse. Bounded model checking is the right level: the defect class (32-bit length wrap) needs one rare input that only a solver produces.",
   note="Bounds: input = 19+k bytes, k=3 quick / 6 thorough, 32-bit sum of declared lengths <= k (wrapping sums included). Trusted: go/ssa, the symgo interpreter, z3; bufio/io/encoding/binary are executed from SSA, not stubbed.",
   ref="DESIGN.md section 6, C19"),
+ "C20": dict(
+  text="Bounded symbolic execution of the real body.Modifier.ModifyResponse (strings.Split/TrimSpace, strconv.Atoi, multipart.Writer all executed from SSA) on symbolic content and symbolic Range headers; z3 shows for every header within the bound: no panic, body readable with Content-Length equal to its length, and the outcome is full content, a 416 only when some range is malformed/unsatisfiable, or a 206 whose bytes, Content-Range and multipart framing equal an RFC 7233 reference computed in the harness.",
+  note="Bounds: content length in {0,1,2,3,5}; Range = 'bytes=' + <=4 (quick) / <=6 (thorough) free characters over [0-9,- ] or the structured family bytes=a-[b][,c-[d]] with numbers of <=2 / <=4 symbolic digits. The static-file modifier half of C20 (file ranges, path containment) is not covered yet. Trusted: go/ssa, symgo, z3.",
+  ref="DESIGN.md section 6, C20"),
 }
 
 NOT_YET = "check not built yet in this round; planned with the same technique (DESIGN.md section 6)"
